@@ -9,6 +9,7 @@ import random
 from .common import case, guarded, ordinal_instance, weak_orders, rand_weak_order, rand_perm
 
 ID = "C06"
+COVER_FILES = ['aggregation/singlewinner.py', 'properties/decorators.py']
 RULE = ("exhaustive: every profile over m <= 3 alternatives with <= 3 distinct ballots (as sets of ballots) and "
         "multiplicities in {1,2}, for each of soc/soi/toc/toi with ballots of the matching shape, every rule applied "
         "to every profile (so every rule x every data type, guards included; k = 1..m+2 for k-approval); plus the same "
